@@ -466,36 +466,11 @@ func checkCacheStoresOnlySuccess(c *Ctx, rule string) {
 		c.Violation(rule, "cache.get/stores", get.Pos(), "no store into the segment found")
 	}
 	// a failed fetch makes get return an error: in the function of the fetch and at every call site up to get
-	errorArmOK := func(call *ssa.Call) bool {
-		fn := call.Parent()
-		e, _ := errResult(call)
-		if e == nil {
-			return true
-		}
-		if a, b := nilTestEdges(e); len(a) == 0 && len(b) == 0 {
-			for _, r := range returnsOf(fn) {
-				vals := returnValues(r)
-				if len(vals) > 0 && vals[len(vals)-1] == e {
-					return true // `return f(...)`: the caller sees the error
-				}
-			}
-		}
-		isNil, nonNil := nilTestEdges(e)
-		if len(nonNil) == 0 {
-			return false
-		}
-		for _, ed := range nonNil {
-			if g, _ := errorArmLeaves(fn, ed, isNil, nil); !g {
-				return false
-			}
-		}
-		return true
-	}
 	for i, fetch := range fetches {
 		okArm := true
 		for _, in := range reg.chain(fetch) {
 			call, isCall := in.(*ssa.Call)
-			if !isCall || !errorArmOK(call) {
+			if !isCall || !callErrorArmReturns(call) {
 				okArm = false
 			}
 		}
@@ -509,6 +484,35 @@ func checkCacheStoresOnlySuccess(c *Ctx, rule string) {
 // n.  In (*Task).Delete the number handed to Destination.Delete must be
 // bounded by (remaining position + 1), the remaining position being read from
 // shovel.task_updates (keyed by this task) after the cursor delete.
+// callErrorArmReturns: the error result of call is handed on by its function:
+// either returned as it is (`return f(...)`), or tested, with the non-nil arm
+// ending in returns of a non-nil error.
+func callErrorArmReturns(call *ssa.Call) bool {
+	fn := call.Parent()
+	e, _ := errResult(call)
+	if e == nil {
+		return true
+	}
+	if a, b := nilTestEdges(e); len(a) == 0 && len(b) == 0 {
+		for _, r := range returnsOf(fn) {
+			vals := returnValues(r)
+			if len(vals) > 0 && vals[len(vals)-1] == e {
+				return true // `return f(...)`: the caller sees the error
+			}
+		}
+	}
+	isNil, nonNil := nilTestEdges(e)
+	if len(nonNil) == 0 {
+		return false
+	}
+	for _, ed := range nonNil {
+		if g, _ := errorArmLeaves(fn, ed, isNil, nil); !g {
+			return false
+		}
+	}
+	return true
+}
+
 func checkUnwindCoversStep(c *Ctx, rule string) {
 	w := c.W
 	del := w.Fn("shovel", "(*Task).Delete")
@@ -1029,7 +1033,7 @@ func checkLogsGrouping(c *Ctx, rule string) {
 			continue
 		}
 		kb := reg.Resolve(txCall.Call.Args[1])
-		bv := txCall.Call.Args[0]
+		bv := reg.Resolve(txCall.Call.Args[0])
 		if e, ok := bv.(*ssa.Extract); ok {
 			bv = e.Tuple
 		}
